@@ -718,6 +718,13 @@ func (ft *FT) sliceOp(x *ssa.Slice, st *State, guard Term) {
 		}
 		ft.safety("bounds", x.Pos(), guard, and(app("<=", "0", lo), app("<=", lo, hi), app("<=", hi, mx), app("<=", mx, app("sl-cap", s))))
 		ft.define(x, app("mk-slice", app("sl-base", s), app("+", app("sl-off", s), lo), app("-", hi, lo), app("-", mx, lo)))
+		// bridge for quantified facts stated over the parent slice: an element of the sub-slice is an
+		// element of the parent (a consequence of the definition of at!, given as a trigger-friendly fact)
+		if k := ft.elemKey(xt.Elem()); ft.heaps[k] != nil {
+			at := ft.atFun(k)
+			hs := ft.heaps[k].sort
+			ft.asserts = append(ft.asserts, fmt.Sprintf("(assert (forall ((E %s) (k Int)) (! (= (%s E %s k) (%s E %s (+ %s k))) :pattern ((%s E %s k)))))", hs, at, ft.val(x), at, s, lo, at, ft.val(x)))
+		}
 	case *types.Pointer: // *array
 		at := xt.Elem().Underlying().(*types.Array)
 		n := num(at.Len())
